@@ -72,8 +72,12 @@ def classify(cells, want, fs):
     return None
 
 
-def compare_image(task, image, out, fmt):
-    for seg in image:
+DEVNAME = {"elf": "bss:no-zero-fill", "pe": "tail:space-padded"}
+
+
+def compare_image(task, image, out, fmt, asis=None):
+    """asis: what the named known deviation of the format (TLC computed it) leaves in each segment, or None"""
+    for j, seg in enumerate(image):
         fs = seg["fs"]
         va = c14.dval(seg["va"])
         want = seg["mem"]
@@ -81,6 +85,8 @@ def compare_image(task, image, out, fmt):
         c = classify(cells, want, fs)
         if c is not None:
             clause, i, g, w = c
+            if asis is not None and cells == asis[j]:
+                clause = DEVNAME[fmt]        # byte for byte what the deviation model predicts
             out.append(("C15:%s:%s" % (fmt, clause),
                         "segment %d at %#x (+%d bytes, %d file-backed): byte %d (address %#x) reads %r, the file maps %r"
                         % (seg["k"], va, len(want), fs, i, va + i, g, w)))
@@ -98,7 +104,7 @@ def replay_elf(beh):
         out.append(("C15:elf:load:none", "load_program returned no task for a loadable image"))
         return out
     try:
-        compare_image(task, beh["image"], out, "elf")
+        compare_image(task, beh["image"], out, "elf", beh.get("asis"))
         entry = c14.dval(beh["entry"])
         pc = pc_value(task)
         if pc != entry:
@@ -112,8 +118,9 @@ def replay_elf(beh):
             want = beh["atentry"][:len(i.bytes)]
             got = list(i.bytes)[:len(want)]       # bytes past the end of the segment are not defined by the file
             if got != want:
-                first = next(k for k, (g, w) in enumerate(zip(got, want)) if g != w)
-                key = "C15:elf:fetch" if first < beh["nfile"] else "C15:elf:fetch:bss"
+                key = "C15:elf:fetch"
+                if got == beh.get("asis_atentry", [])[:len(got)]:
+                    key = "C15:elf:fetch:no-zero-fill"     # the bytes the deviation model leaves there
                 out.append((key, "instruction fetched at %#x has bytes %s, the file places %s there (%d file-backed)"
                             % (entry, bytes(got).hex(), bytes(want).hex(), beh["nfile"])))
     except Exception as ex:
@@ -142,7 +149,7 @@ def replay_image(beh, fmt):
         out.append((key, "load_program returned no task for a loadable image"))
         return out
     try:
-        compare_image(task, beh["image"], out, fmt)
+        compare_image(task, beh["image"], out, fmt, beh.get("asis"))
         entry = c14.dval(exp["entry"])
         pc = pc_value(task)
         if pc != entry:
@@ -158,7 +165,9 @@ def replay_image(beh, fmt):
                 got = list(i.bytes)[:len(want)]
                 if got != want:
                     first = next(k for k, (g, w) in enumerate(zip(got, want)) if g != w)
-                    key = "C15:%s:fetch" % fmt if first < beh.get("nfile", 16) else "C15:%s:fetch:bss" % fmt
+                    key = "C15:%s:fetch" % fmt
+                    if fmt == "pe" and first >= beh.get("nfile", 16) and all(g == 32 for g in got[max(beh.get("nfile", 16), 0):]):
+                        key = "C15:pe:fetch:space-padded"      # the tail bytes are the spaces of the deviation
                     out.append((key, "instruction fetched at %#x has bytes %s, the file places %s there"
                                 % (entry, bytes(got).hex(), bytes(want).hex())))
     except Exception as ex:
@@ -181,7 +190,7 @@ def replay_image_chunk(args):
                 continue
             seen.add(key)
             if len(res["fails"]) < 200:
-                res["fails"].append({"key": key, "what": what, "bytes": beh["bytes"]})
+                res["fails"].append({"key": key, "what": what, "replayer": "c15.replay_image:" + fmt, "behaviour": beh})
         res["sigs"].add(tuple((s["fs"] < len(s["mem"]), s["fs"] == 0) for s in beh["image"]) + (beh.get("plus", None), beh.get("align", 0)))
         if res["sample"] is None:
             res["sample"] = {"format": fmt, "size": len(beh["bytes"]),
@@ -245,7 +254,7 @@ def replay_stream_chunk(args):
                 continue
             seen.add(key)
             if len(res["fails"]) < 200:
-                res["fails"].append({"key": key, "what": what, "lines": [bytes(l).decode("latin1") for l in beh["lines"]]})
+                res["fails"].append({"key": key, "what": what, "replayer": "c15.replay_stream", "behaviour": beh})
         res["sigs"].add((beh["fmt"], tuple(r["type"] for r in beh["recs"]), len(beh["blocks"]), beh["entry"]["kind"], beh["mixed"]))
         if res["sample"] is None:
             res["sample"] = {"fmt": beh["fmt"], "lines": [bytes(l).decode("latin1") for l in beh["lines"]],
@@ -268,7 +277,7 @@ def replay_chunk(args):
                 continue
             seen.add(key)
             if len(res["fails"]) < 200:
-                res["fails"].append({"key": key, "what": what, "bytes": beh["bytes"], "ps": beh["ps"]})
+                res["fails"].append({"key": key, "what": what, "replayer": "c15.replay_elf", "behaviour": beh})
         res["sigs"].add(signature(beh))
         if res["sample"] is None:
             res["sample"] = {"cls": beh["cls"], "ps": beh["ps"], "rels": beh["rels"], "size": len(beh["bytes"]),
